@@ -397,6 +397,18 @@ class C06(Check):
             plans = plans[:cap]
         for k in response_page_fetches(w)[:2]:
             plans.append([{"kind": "apierr", "call": k, "err": rng.choice(classes), "applied": False}])
+        # the calls that carry the START of a step attempt in a later invocation (a retry attempt found READY on replay)
+        started, starts, amo_starts = set(), [], []
+        amo = amo_positions(cfg["program"])
+        for e in w.trace:
+            if e["k"] == "api-begin":
+                for u in e.get("kinds") or []:
+                    if u[0] == "STEP" and u[1] == "START":
+                        if u[2] in started:  # START of attempt >= 2 of that step
+                            (amo_starts if u[3] in amo else starts).append(e["call"])
+                        started.add(u[2])
+        for k in rng.sample(amo_starts, min(2, len(amo_starts))) + rng.sample(starts, min(1, len(starts))):
+            plans.append([{"kind": "apierr", "call": k, "err": rng.choice(classes), "applied": False}])
         return plans
 
     def oracle(self, ix, cfg, golden):
@@ -852,6 +864,9 @@ class ComponentCheck(Check):
                 out["api-error:" + ("page-fetch" if e.get("page") else "applied" if e.get("applied") else "not-applied")] = 1
             if e["k"] == "boom":
                 out["holder-raises-in-critical-section"] = 1
+                out["holder-raises:" + str(e.get("cls"))] = 1
+            if e["k"] in ("reset-ok", "reset-refused"):
+                out["concurrent-" + e["k"]] = 1
         return out
 
     def component_replay(self, cfg):
